@@ -37,8 +37,8 @@ theorem host_agrees (sig : List Bool) :
   rw [Lemmas.C15.hostClicks_eq_risingEdges, Lemmas.C15.clickCount_eq_risingEdges]
   rfl
 
-/-- without the setup sample (a Button declared inside the main loop body) the start-up guarantee fails:
-    known finding K15a -/
+/-- why the setup sample matters: without it the start-up guarantee fails.  (This was the behaviour of a Button declared inside
+    the main loop body — finding K15a, repaired in /repo by 5cf46d6: such a button now takes the same sample in setup().) -/
 theorem loop_declared_startup_click_counterexample :
     (({} : Button).passes [true]).head? = some (true, true) := by
   decide
